@@ -86,6 +86,13 @@ Call == /\ Is("call")
         /\ UNCHANGED <<q, led, viol>>
         /\ l' = l + 1
 
+(* A receiver drop that takes effect before its own return is applied in two steps, as the code does it:
+   the stream leaves the published list first (senders computed from then on are not limited by it,
+   and with no stream left nothing limits them), the no-reader flag is raised before the call returns. *)
+IsRecvDrop(qq, c) == c.op \in {"drop", "unsub"} /\ IsRecv(qq, c.h)
+ApplyEarly(qq, c) ==
+  IF IsRecvDrop(qq, c) THEN <<DoDropRecvStream(qq, c.h), Apply(qq, c)[2], -1>> ELSE Apply(qq, c)
+
 (* linearise the calls of seq (threads) in order, with the model's own results *)
 RECURSIVE LinSeq(_, _, _)
 LinSeq(qq, pp, seq) ==
@@ -93,7 +100,7 @@ LinSeq(qq, pp, seq) ==
   ELSE LET u == Head(seq)
            c == pp[u] IN
        IF ~CanApply(qq, c) THEN <<FALSE, qq, pp>>
-       ELSE LET a == Apply(qq, c) IN
+       ELSE LET a == ApplyEarly(qq, c) IN
             LinSeq(a[1], [pp EXCEPT ![u] = [c EXCEPT !.lin = TRUE, !.res = a[2], !.rv = a[3]]], Tail(seq))
 
 (* state change implied by the observed result of call c *)
@@ -119,7 +126,9 @@ Bad(qq, c, r, v, same) ==
          (CASE r = "Ok"   -> IF mr = "Disc" THEN {"C13"} ELSE IF mr = "Full" THEN {"C03"} ELSE {}
             [] r = "Full" -> IF mr = "Full" THEN {} ELSE IF mr = "Disc" THEN {"C13"}
                              ELSE IF c.ov THEN {} ELSE {"C06"}
-            [] r = "Disc" -> IF mr = "Disc" THEN {} ELSE {"C13"}
+            \* the no-reader flag is raised inside the drop call of the last receiver, after its stream has
+            \* stopped counting: a send overlapping that call may already see it
+            [] r = "Disc" -> IF mr = "Disc" \/ Streams(qq) = {} THEN {} ELSE {"C13"}
             [] OTHER -> {"C09"})
     [] c.op \in {"recv", "brecv"} ->
          LET mr == RecvRes(qq, c.h) IN
@@ -142,16 +151,23 @@ Ret == /\ Is("ret")
                   /\ c.res = E.r
                   /\ (c.res = "Val" => c.rv = E.v)
                   /\ pend' = [pend EXCEPT ![t] = NoCall]
-                  /\ UNCHANGED <<q, viol>>
+                  /\ q' = IF c.op \in {"drop", "unsub"} THEN MarkNoReaders(q) ELSE q
+                  /\ UNCHANGED viol
              ELSE \E seq \in SeqsOver({u \in OthersPending(t) : ~pend[u].lin}) :
-                    LET ls == LinSeq(q, pend, seq) IN
+                  \E k \in (IF IsRecvDrop(q, c) THEN 0..Len(seq) ELSE {Len(seq)}) :
+                    \* calls of other threads that take effect before this one ...
+                    LET ls == LinSeq(q, pend, SubSeq(seq, 1, k)) IN
                     /\ ls[1]
                     /\ LET q1 == ls[2]
                            p1 == ls[3]
-                           bad == Bad(q1, c, E.r, E.v, E.same) IN
+                           bad == Bad(q1, c, E.r, E.v, E.same)
+                           \* ... and, for a receiver drop, between its two halves
+                           q2 == IF k < Len(seq) THEN DoDropRecvStream(q1, c.h) ELSE EffObs(q1, c, E.r, E.v)
+                           ls2 == LinSeq(q2, p1, SubSeq(seq, k + 1, Len(seq))) IN
                        /\ Flag(bad)
-                       /\ q' = EffObs(q1, c, E.r, E.v)
-                       /\ pend' = [p1 EXCEPT ![t] = NoCall]
+                       /\ ls2[1]
+                       /\ q' = IF k < Len(seq) THEN MarkNoReaders(ls2[2]) ELSE q2
+                       /\ pend' = [ls2[3] EXCEPT ![t] = NoCall]
        /\ UNCHANGED led
        /\ l' = l + 1
 
@@ -189,6 +205,8 @@ StuckBad(x) ==
     [] x.op = "taskwait" ->
          IF x.api = "send" THEN (IF IsSend(q, x.h) /\ SendRes(q) = "Full" THEN {} ELSE {"C14"})
          ELSE (IF IsRecv(q, x.h) /\ RecvRes(q, x.h) = "Empty" THEN {} ELSE {"C14"})
+    [] x.op = "retry_send" -> IF IsSend(q, x.h) /\ SendRes(q) = "Full" THEN {} ELSE {"C06"}
+    [] x.op = "retry_recv" -> IF IsRecv(q, x.h) /\ RecvRes(q, x.h) = "Empty" THEN {} ELSE {"C06"}
     [] x.api \in {"poll", "start_send", "poll_complete"} -> {"C15"}
     [] x.op \in {"send", "recv"} -> {"C18"}
     [] OTHER -> {"C09"}
